@@ -18,6 +18,10 @@ Strike uses: scalars (`int`, latin-1 `str`, `bytes`, `None` for the name of an u
 `None`), process-inject transform lists, BeaconGate string lists.  A scalar where a list is needed or vice versa cannot be
 produced by `settings_by_index` for canonical TLV types; for such pairs the model answers `TypeError` as an
 out-of-domain marker (the real code raises TypeError/AttributeError/ValueError there or prints a Python repr).
+Text settings: the loop starts with `if isinstance(value, str): value = value.encode("latin-1")`, so every `str` pretty
+value (`PVal.str`, latin-1 text = `Bytes`) reaches `value_to_string` as `bytes` (`C12.valueToString`: everything escaped);
+only the `str` objects the code makes itself (constants, `"X" * n`, the execute `val`) take the `str` path
+(`C12.valueToStringStr`: `"` escaped, nothing else).
 Python `str` is latin-1 text (`Bytes`); `str.lower()` is modelled on ASCII (all names it is applied to are ASCII
 identifiers of the package).  Trees are Lark trees with *string* labels (`Option Bytes`: `None` is a possible dict key
 of `block_steps`); `intern` maps them to the interned trees of the C10 model.
@@ -118,17 +122,16 @@ def joinComma : List Bytes → Bytes
   | [x] => x
   | x :: y :: r => x ++ [44, 32] ++ joinComma (y :: r)
 
-/-- `", ".join(config.uris)`: an element `None` raises TypeError -/
-def joinUris (uris : List (Option Bytes)) : Py Bytes :=
-  match uris.mapM id with
-  | some us => .ok (joinComma us)
-  | none => .error .typeError
+/-- `", ".join(uri for uri in config.uris if uri is not None)`: missing URIs (`None`, the padding of an odd number of
+SETTING_DOMAINS fields) are skipped -/
+def joinUris (uris : List (Option Bytes)) : Bytes := joinComma (uris.filterMap id)
 
-/-- `value_to_string(value)` for a scalar: `bytes` → repr-based escaping, `str` → the two replaces, anything else
-(`int`, `None`) → `f'"{value}"'`.  `none` = not a scalar (outside the modelled domain). -/
+/-- `value_to_string(value)` for the scalar a branch of the chain receives: a `str` has been encoded to `bytes` by the
+preamble of the loop, so both `str` and `bytes` take the repr-based escaping; anything else (`int`, `None`) →
+`f'"{value}"'`.  `none` = not a scalar (outside the modelled domain). -/
 def vts : PVal → Option Bytes
   | .int n => some ([34] ++ decBytes n ++ [34])
-  | .str s => some (C12.valueToStringStr s)
+  | .str s => some (C12.valueToString s)
   | .bytes v => some (C12.valueToString v)
   | .none => some (b "\"None\"")
   | _ => Option.none
@@ -330,7 +333,7 @@ inductive Act
   | profOpt (name : Bytes)                           -- profile.set_option(name, value)
   | blkOpt (k : Blk) (label : Bytes)                 -- block.set_option(label, value)
   | blkConst (k : Blk) (label text : Bytes)          -- block.set_option(label, "<text>")
-  | uris                                             -- http_get.set_option("uri", ", ".join(config.uris))
+  | uris                                             -- `uris = ", ".join(non-None uris); if uris: http_get.set_option("uri", uris.encode())`
   | recover
   | request (client : Blk)
   | perms (label : Bytes) (t f : Nat)                -- value == t → "true", value == f → "false"
@@ -421,9 +424,8 @@ def runAct (uris : List (Option Bytes)) (st : St) (v : PVal) : Act → Py St
     | Option.none => .error .typeError
   | .blkConst k label text => .ok (st.app k (stmt label [C12.valueToStringStr text]))
   | .uris =>
-    match joinUris uris with
-    | .ok u => .ok (st.app .httpGet (stmt (b "uri") [C12.valueToStringStr u]))
-    | .error e => .error e
+    let u := joinUris uris
+    if u.isEmpty then .ok st else .ok (st.app .httpGet (stmt (b "uri") [C12.valueToString u]))
   | .recover =>
     match v with
     | .recover l => .ok { st with recover := l.map recoverOpt }
@@ -653,11 +655,16 @@ Keys are written as in a profile (`http-get.client.header`), values as `as_dict`
 literal text of the value (`lit`: decimal for numbers, `"` escaped for text, `repr`-style escapes for bytes), list
 properties as keyword / (keyword, exact bytes).  Guarded settings whose value is zero / empty count as absent. -/
 
-/-- literal text of a scalar as it stands between the quotes -/
-def lit (v : PVal) : Bytes := unquote ((vts v).getD [])
-
-def litStr (s : Bytes) : Bytes := unquote (C12.valueToStringStr s)
+/-- literal text of a byte string as it stands between the quotes: `\"`, `\\`, `\t`, `\n`, `\r`, `\xhh` escapes, printable
+ASCII as is (`C12.literal_roundtrip`: it decodes to exactly the bytes) -/
 def litBytes (v : Bytes) : Bytes := unquote (C12.valueToString v)
+
+/-- literal text of a scalar as it stands between the quotes: decimal digits of a number, `litBytes` of text / bytes -/
+def lit : PVal → Bytes
+  | .int n => decBytes n
+  | .str s => litBytes s
+  | .bytes v => litBytes v
+  | _ => []
 
 def k (s : String) : Bytes := b s
 
@@ -748,7 +755,7 @@ inductive SpecAct
   | skip
   | plain (key : List Bytes)                      -- `key = "<literal of the value>"`
   | const (key : List Bytes) (text : Bytes)       -- `key = "<text>"` when the (guarded) value is set
-  | uris                                          -- http-get.uri = the URIs, joined with ", "
+  | uris                                          -- http-get.uri = the URIs that are present, joined with ", " (absent if empty)
   | recover                                       -- http-get.server.output
   | client (blk : Bytes)                          -- <blk>.client: static headers / parameters, BUILD groups
   | perms (key : List Bytes) (t f : Nat)          -- "true" for value `t`, "false" for value `f`
@@ -802,7 +809,7 @@ def specBlock : SpecAct → Option (List Bytes)
 def specEntries (uris : List (Option Bytes)) : SpecAct → PVal → List Entry
   | .plain key, v => [(key, .raw (lit v))]
   | .const key text, _ => [(key, .raw text)]
-  | .uris, _ => [([k "http-get", k "uri"], .raw (litStr (joinComma (uris.filterMap id))))]
+  | .uris, _ => if (joinUris uris).isEmpty then [] else [([k "http-get", k "uri"], .raw (litBytes (joinUris uris)))]
   | .recover, .recover l => expServer l
   | .client blk, .transform p => expClient blk p
   | .perms key t f, v => if v.eqInt t then [(key, .raw (k "true"))] else if v.eqInt f then [(key, .raw (k "false"))] else []
@@ -829,15 +836,12 @@ def expectedDict (cfg : List (Nat × PVal)) (uris : List (Option Bytes)) : List 
 
 def noBackslash (s : Bytes) : Bool := !s.contains 92
 
-/-- text over printable ASCII characters, the backslash excluded (known finding `C13-text-option-backslash`) -/
-def wfText (s : Bytes) : Bool := s.all fun c => 0x20 ≤ c && c < 0x7f && c != 92
-
-/-- scalar values the property speaks about: numbers, bytes, printable text without a backslash (`None` = the name of
-an undefined enum value is excluded) -/
+/-- scalar values the property speaks about: numbers, bytes, and ANY latin-1 text — backslashes, quotes, control and
+non-ASCII characters included (`None` = the name of an undefined enum value is excluded) -/
 def wfScalar : PVal → Bool
   | .int _ => true
   | .bytes _ => true
-  | .str s => wfText s
+  | .str _ => true
   | _ => false
 
 def TStep.isTerm : TStep → Bool
@@ -860,6 +864,8 @@ def wfProgram (allowed : List Bytes) (prog : List TStep) : Bool :=
 
 def gateLabels : List Bytes := Gen.ProfileGen.gateNames.map fun p => ofText p.1
 
+/-- execute items: a known name, or `CreateThread "…"` / `CreateRemoteThread "…"` whose quoted part has no backslash:
+`val` is handed to `value_to_string` as a `str`, which escapes `"` only (finding `C13-execute-special-backslash`) -/
 def wfExecItem : Option Bytes → Bool
   | Option.none => false
   | some s =>
@@ -868,13 +874,13 @@ def wfExecItem : Option Bytes → Bool
       (let p := partition2 [32] s
        s.contains 32 && (p.1 = k "CreateThread" || p.1 = k "CreateRemoteThread") && 2 ≤ p.2.length))
 
-/-- what a branch requires of its value -/
-def wfAct (uris : List (Option Bytes)) : Act → PVal → Bool
+/-- what a branch requires of its value (`config.uris` is unrestricted: any text, `None` entries allowed) -/
+def wfAct : Act → PVal → Bool
   | .pass, _ => true
   | .profOpt _, v => wfScalar v
   | .blkOpt _ _, v => wfScalar v
   | .blkConst _ _ _, v => wfScalar v
-  | .uris, _ => uris.all fun u => match u with | some s => wfText s | Option.none => false
+  | .uris, _ => true
   | .recover, .recover l => (l.filter (·.isTerm)).length == 1
   | .request .getClient, .transform p => wfProgram [k "metadata", k "output"] p
   | .request _, .transform p => wfProgram [k "id", k "output"] p
@@ -885,13 +891,13 @@ def wfAct (uris : List (Option Bytes)) : Act → PVal → Bool
   | .gate, .gate l => l.all gateLabels.contains
   | _, _ => false
 
-def wfSetting (uris : List (Option Bytes)) (kv : Nat × PVal) : Bool :=
+def wfSetting (kv : Nat × PVal) : Bool :=
   match actionTable.find? (·.1 == kv.1) with
   | Option.none => true
-  | some (_, _, a) => wfAct uris a kv.2
+  | some (_, _, a) => wfAct a kv.2
 
-/-- the configurations the property quantifies over -/
-def WellFormedCfg (cfg : List (Nat × PVal)) (uris : List (Option Bytes)) : Bool :=
-  (cfg.map (·.1)).Nodup && cfg.all (wfSetting uris)
+/-- the configurations the property quantifies over (for every `config.uris`) -/
+def WellFormedCfg (cfg : List (Nat × PVal)) : Bool :=
+  (cfg.map (·.1)).Nodup && cfg.all wfSetting
 
 end C13
